@@ -252,6 +252,38 @@ def run_leading_zero(ck, w, seed):
     ck.count('leading_zero.completed_with_rfc_keys')
 
 
+def run_proposal_spi(ck, w, seed):
+    """An independent responder whose IKE_SA_INIT answer carries an SPI field INSIDE its proposal (8 octets that are not its IKE SPI: some implementations echo
+    or fill it; RFC 7296 3.3.1 only says the field is not used there). The SPIs that enter the key schedule are the ones of the IKE HEADER (2.14): the real
+    initiator's IKE_AUTH request must open under keys derived with them."""
+    from vf.ref import ikecrypto, party
+    from vf.checks import c02
+    rng = ck.rng('proposal-spi', w)
+    sim, a, b = S.make_pair(seed + w, v6=bool(w % 3 == 0))
+    sim.case = {'family': 'spi-field-in-the-ike-sa-init-proposal', 'w': w}
+    sim.acquire(a, 0)
+    req = sim.net.pop(0).data
+    a_addr, b_addr = str(a.addrs[0]), str(b.addrs[0])
+    p = party.RefParty(b_addr, a_addr, rng)
+    spi_field = [bytes(rng.randrange(256) for _ in range(8)), b'\0' * 8, req[:8], b'\x01\x02\x03\x04'][w % 4]
+    sim.inject(a, b_addr, a_addr, p.respond_init(req, proposal_spi=spi_field))
+    ck.count('proposal_spi.handshakes')
+    ck.nontrivial(('proposal-spi', w % 4))
+    areqs = [d.data for d in sim.net if d.dst == b_addr]
+    sim.net.clear()
+    if not areqs:
+        ck.count('proposal_spi.answer_refused')            # refusing such an answer is a sound reaction too
+        return
+    try:
+        p.open(areqs[0])
+    except ikecrypto.NotProtected:
+        ck.violation('ike-keys-not-derived-from-the-spis-of-the-ike-header', {'spi_field_in_the_proposal': spi_field, 'header_spi_r': p.spi_r}, sim.case)
+        return
+    sim.inject(a, b_addr, a_addr, p.respond_auth(areqs[0], c02.ID_B[0], c02.ID_B[1], 2, p.auth_psk(c02.PSK_B, *c02.ID_B)))
+    if c02.established(a):
+        ck.count('proposal_spi.completed')
+
+
 def run_refusal(ck, w, seed):
     """One NEWSA is refused by the kernel of one side during a negotiation: afterwards the two SADs still mirror each other (no SA that only one end holds)."""
     rng = ck.rng('refusal', w)
@@ -308,6 +340,9 @@ def run(ck):
     for w in range(16 if not ck.thorough() else 160):
         if ck.mine(w):
             run_leading_zero(ck, w, ck.seed * 1000003 + 9911)
+    for w in range(16 if not ck.thorough() else 160):
+        if ck.mine(w + 1):
+            run_proposal_spi(ck, w, ck.seed * 1000003 + 9933)
     # negotiations that complete only after an INVALID_KE_PAYLOAD retry (IKE_SA_INIT, IKE_SA rekey, PFS CHILD_SA), half of them after an IKE_SA rekey that the
     # busy peer pushed back: the key monitor judges every SA both ends install (the histories of C04, judged here for the mirror-image clause)
     from vf.checks import c04 as c04_
@@ -335,6 +370,7 @@ def run(ck):
 def verdict(ck):
     c = ck.counters
     t = ck.thorough()
+    ck.floor('handshakes with an SPI field inside the IKE_SA_INIT proposal of the answer', c['proposal_spi.handshakes'], 12)
     ck.floor('handshakes whose Diffie-Hellman result has a leading zero octet, completed with the RFC keys', c['leading_zero.completed_with_rfc_keys'], 12)
     ck.floor('INVALID_KE_PAYLOAD histories that start with an IKE_SA rekey pushed back by TEMPORARY_FAILURE', c['ke_retry.histories_after_a_refused_ike_rekey'], 6)
     ck.floor('NEWSA requests checked against the reference derivation', c['keymon.newsa_seen'], 1500)
